@@ -240,6 +240,9 @@ def post_typestate(I, p, f, d, pre):
     enabled = en[0] if len(en) == 1 and en[0] in (True, False) else pre.enabled
     if o is NONE:
         return TS(exc, None, enabled)
+    if not isinstance(o, Obj):
+        raise AnalysisError('the retraction record stored by this step is not an object created on the path but %r '
+                            '(taken from a cache or another long-lived container?)' % (o,))
     vals = []
     for attr in ('recoverExcluded', 'allowCombine', 'firmwareRetract'):
         x = live_alts(p.st, p.st.heap.get((o.oid, attr)))
